@@ -364,6 +364,15 @@ class Distrib:
         """
         self.unimplemented("updateDependencies")
 
+    def _findDeclaredProduct(self, productName, versionName):
+        """return the declared product, looked for where Eups.setup (and so the dependency listing) looks:
+        under the running flavor, then under its fall-back flavors; raise ProductNotFound if there is none"""
+        for flavor in eups.utils.Flavor().getFallbackFlavors(self.Eups.flavor, includeMe=True):
+            product = self.Eups.findProduct(productName, versionName, flavor=flavor)
+            if product:
+                return product
+        raise eups.ProductNotFound(productName, versionName, self.Eups.flavor)
+
     def _createDeps(self, productName, versionName, flavor=None, tag=None,
                     recursive=False, exact=False, mapping=server.Mapping()):
         """return a list of product dependencies for a given project.  This
@@ -412,7 +421,7 @@ class Distrib:
             # consult the EUPS database
             def getDependencies(productName, version):
                 try:
-                    product = self.Eups.getProduct(productName, version)
+                    product = self._findDeclaredProduct(productName, version)
                     dependencies = self.Eups.getDependentProducts(product, productDictionary={},
                                                                   topological=True)
                 except Exception:
@@ -457,7 +466,12 @@ class Distrib:
             dproductName = dprod.name
             dversionName = dprod.version
 
-            product, vroReason = self.Eups.findProductFromVRO(dproductName, dversionName)
+            # the listing found the product under the running flavor or one of its fall-back flavors
+            for fallbackFlavor in eups.utils.Flavor().getFallbackFlavors(self.Eups.flavor, includeMe=True):
+                product, vroReason = self.Eups.findProductFromVRO(dproductName, dversionName,
+                                                                  flavor=fallbackFlavor)
+                if product:
+                    break
 
             if product:
                 versionName = product.version
@@ -491,7 +505,7 @@ class Distrib:
 
         def lookupProduct(product, version):
             try:
-                return self.Eups.getProduct(product, version)
+                return self._findDeclaredProduct(product, version)
             except eups.ProductNotFound:
                 return None
 
@@ -877,7 +891,7 @@ class DefaultDistrib(Distrib):
 
             def searchForTableFile(product, version, flavor):
                 try:
-                    return self.Eups.getProduct(product, version).tablefile
+                    return self._findDeclaredProduct(product, version).tablefile
                 except KeyboardInterrupt:
                     raise RuntimeError("You hit ^C while looking for %s %s's table file" %
                                          (product, version))
